@@ -9,6 +9,7 @@ import NomtModel.Driver.BitOpsMode
 import NomtModel.Driver.SeglogMode
 import NomtModel.Driver.TriePosMode
 import NomtModel.Driver.ShardsMode
+import NomtModel.Driver.DeltaMode
 /-!
 `nomt_model`: the executable Lean model behind a line protocol.
 First argument selects the sub-protocol; stdin → stdout, one output line per input line.
@@ -37,4 +38,5 @@ def main (args : List String) : IO UInt32 := do
   | ["seglog"] => loop stdin stdout SegD.seglogStep {}; return 0
   | ["triepos"] => loop stdin stdout trieposStep none; return 0
   | ["shards"] => loop stdin stdout shardsStep {}; return 0
+  | ["delta"] => loop stdin stdout deltaStep {}; return 0
   | _ => IO.eprintln "usage: nomt_model <core|...>"; return 2
